@@ -907,8 +907,9 @@ class RulesMixin:
         for cl in invs:
             v = self.spec_eval_loop(cl, env_for(0), pre_env, fr)
             ctx.prove(f"{unit}.{label}.entry.{cl.name}", self.as_z3_bool(v), cl.text, fr.where(), note="loop invariant on entry")
-        if heap and self.unit_self is not None:
+        if heap and self.unit_self is not None and not getattr(self, "in_init", False):
             self.prove_unit_inv(fr, f"{label}.entry")
+            self.check_guarantee(fr.where(), f"{label} entry")
         # 2. havoc what the loop may change
         for name in sorted(mod - target_names):
             if name in fr.nonlocals:
@@ -933,6 +934,8 @@ class RulesMixin:
             tr = self.traces
             for k in list(tr):
                 tr[k] = [TraceGap(label)]
+            if self.unit_self is not None:
+                self.segment_start = self.snapshot_env({"self": self.unit_self})
         i = None
         if tail is not None:
             i = ctx.fresh(f"_i@{label}", z3.IntSort())
@@ -966,8 +969,9 @@ class RulesMixin:
         for cl in invs:
             v = self.spec_eval_loop(cl, env_for(nxt), pre_env, fr)
             ctx.prove(f"{unit}.{label}.preserve.{cl.name}", self.as_z3_bool(v), cl.text, fr.where(), note="loop invariant preserved")
-        if heap and self.unit_self is not None:
+        if heap and self.unit_self is not None and not getattr(self, "in_init", False):
             self.prove_unit_inv(fr, f"{label}.backedge")
+            self.check_guarantee(fr.where(), f"{label} back edge")
         raise PathEnd("loop iteration done")
 
     def spec_eval_loop(self, cl, env, pre_env, fr):
